@@ -31,6 +31,9 @@ class StubWrapper:
         self.calls = 0
         self.faults = [f for f in faults if f['alg'] == ai]
         self.armed = True
+        # 'ident': a decorator that returns the very function it was given (a tagging/logging decorator, or
+        # `njit if USE_NUMBA else (lambda f: f)`); 'stub': returns a new callable
+        self.kind = run.trace['world']['algebras'][ai].get('wrapper', 'stub')
 
     def __call__(self, func):
         self.applied += 1
@@ -38,6 +41,8 @@ class StubWrapper:
         if sim is not None:
             sim.yield_point('wrap-apply')
         self._maybe_fail('apply', self.applied)
+        if self.kind == 'ident':
+            return func
         outer = self
 
         def wrapped(*args):
